@@ -94,9 +94,13 @@ CLAIMS.update({
              "separators (and for the empty thousands separator) grouped-integer ++ dec ++ fraction reads back to `ip.fp` (read_write, "
              "read_write_no_thousands), so two conventions denote the same number (read_same_number, any number type); calcItem does not depend "
              "on the separator fields when no unit conversion is involved (calc_ignores_separators). Unit conversion re-renders intermediate values "
-             "in the configured convention: its independence is `partial`, decided by the metamorphic run (every unit pair, fractional values, "
-             "4 conventions, bit-exact equality). The separator leak found was repaired in /repo.",
-        note="Trusted: Lean kernel + 3 axioms; lexer glue not modelled; unit-conversion clause decided by enumeration.",
+             "in the configured convention and reads them back: SCP.C08Code proves, by induction over the tokenizer of conversion texts, that the text "
+             "rewritten for decimal ',' lexes under (',' '.') and (',' '') to the tokens the original lexes to under ('.' ',') and ('.' '') "
+             "(codeLex_comma), hence one conversion step (executeCode_sep) and the whole walk over a family (calculateUnit_sep) give the same amount "
+             "under the four conventions, for every code and amount whose text has no ',' and every '.' inside a number (hypothesis codeTextOK, "
+             "evaluated by the model on all configured codes x the amounts of the run, since f64::to_string is not modelled symbolically). "
+             "Other separator strings: metamorphic run (every unit pair, fractional values, bit-exact equality). The separator leak found was repaired in /repo.",
+        note="Trusted: Lean kernel + 3 axioms; the lexer model is tied per line, not verified; codeTextOK is evaluated, not proved, for doubles.",
         ref="§7 C08"),
     "C10": dict(
         technique="Lean 4 integer proofs (unit lengths, additivity, greedy decomposition for ALL durations, flooring) + kernel-decided data obligations + parse-back oracle on printed durations",
